@@ -1,12 +1,42 @@
 package main
 
 import (
+	"strings"
+
 	"verifharness/hx"
 	"verifharness/mods/service"
 )
 
+// the generic history loop of hx.RunHistories, plus branch-coverage counters
 func main() {
 	o := hx.ParseOpts()
 	env := hx.NewEnv()
-	hx.RunHistories(env, service.New(env), o)
+	rn := service.New(env)
+	if o.Replay != "" {
+		hx.RunHistories(env, rn, o)
+		return
+	}
+	out := hx.NewOut(o.Out)
+	defer out.Close()
+	for i := 0; i < o.N; i++ {
+		r := hx.NewRng(o.Seed*1000003 + uint64(i))
+		rl := rn.ResetLine(r)
+		ctx, obs := rn.Reset(env.Fork(), rl)
+		out.Op(rl, obs)
+		for j := 0; j < o.Len; j++ {
+			l := rn.Gen(ctx, r)
+			if l == "" {
+				continue
+			}
+			pre := obs
+			ctx, obs = rn.Exec(ctx, l)
+			out.Op(l, obs)
+			f := strings.Fields(l)
+			out.Count("op." + f[1] + "." + strings.SplitN(obs, " ", 2)[0])
+			for _, b := range service.Branches(l, pre, obs) {
+				out.Count(b)
+			}
+		}
+		out.Count("histories")
+	}
 }
